@@ -363,4 +363,7 @@ class FnPass:
             self.tag(a)
         if name in TRANSPARENT or (name in ("max", "min", "filter", "into_iter", "iter", "collect", "last", "first", "next") and True):
             return rt
+        if name in ("fold", "reduce", "sum", "fold_axis") and rt:
+            # an extremum / sum over values of one unit has that unit (max over rdistances is an rdistance)
+            return rt
         return None
